@@ -45,6 +45,7 @@ def install(mod, fs):
         exists = staticmethod(fs.exists); isfile = staticmethod(fs.isfile); abspath = staticmethod(fs.abspath)
     class OS:
         path = OSPath; makedirs = staticmethod(fs.makedirs); listdir = staticmethod(fs.listdir); stat = staticmethod(fs.stat)
+        lstat = staticmethod(fs.stat)         # the model has no symbolic links: lstat == stat
     class IO:
         open = staticmethod(fs.open); StringIO = io.StringIO
     saved = (mod.os, mod.io)
